@@ -23,8 +23,26 @@ Proof. induction l as [|[k' w] l IH]; cbn; [reflexivity|]. destruct (String.eqb 
 Lemma assoc_set_mnss k m l : assoc_set k (mvars m) (mnss l) = mnss (assoc_set k m l).
 Proof. induction l as [|[k' w] l IH]; cbn; [reflexivity|]. destruct (String.eqb k k'); cbn; [reflexivity|]. f_equal. exact IH. Qed.
 
+(* the variables of a frame and of a scope agree as maps (the order of the bindings may differ: forEach binds _x and
+   _forEachIndex in one order when it starts and in the other when it goes round) *)
+Definition vars_match (l:list (string*rvalue)) (m:list (string*value)) : Prop :=
+  forall k, assoc k m = option_map cv (assoc k l).
+Lemma assoc_assoc_set {A} k' k (v:A) l : assoc k' (assoc_set k v l) = if String.eqb k' k then Some v else assoc k' l.
+Proof.
+  induction l as [|[k0 v0] l IH]; cbn [assoc_set assoc].
+  - destruct (String.eqb k' k); reflexivity.
+  - destruct (String.eqb k k0) eqn:E; cbn [assoc].
+    + apply String.eqb_eq in E. subst k0. destruct (String.eqb k' k); reflexivity.
+    + rewrite IH. destruct (String.eqb k' k0) eqn:E0; [|reflexivity].
+      apply String.eqb_eq in E0. subst k0. rewrite String.eqb_sym, E. reflexivity.
+Qed.
+Lemma vars_match_mvars l : vars_match l (mvars l).
+Proof. intros k. apply assoc_mvars. Qed.
+Lemma vars_match_set k v l m : vars_match l m -> vars_match (assoc_set k v l) (assoc_set k (cv v) m).
+Proof. intros H k'. rewrite !assoc_assoc_set, (H k'). destruct (String.eqb k' k); reflexivity. Qed.
+
 Definition frame_match (sc:scope) (f:frame) : Prop :=
-  f_vars f = mvars (sc_vars sc) /\ f_ns f = sc_ns sc /\ f_bubble f = true.
+  vars_match (sc_vars sc) (f_vars f) /\ f_ns f = sc_ns sc /\ f_bubble f = true.
 Definition Match (s:sstate) (r:rt) (fs:list frame) : Prop :=
   Forall2 frame_match (st_scopes s) fs /\ r_nss r = mnss (st_nss s).
 
@@ -45,7 +63,7 @@ Lemma moved_set_vars f vs : moved f (set_vars f vs). Proof. destruct f; reflexiv
 Lemma lookup_match k : forall scs fs, Forall2 frame_match scs fs -> lookup_frames k fs = option_map cv (lookup_scopes k scs).
 Proof.
   induction 1 as [|sc f scs fs (V & N & B) H IH]; cbn [lookup_frames lookup_scopes]; [reflexivity|].
-  rewrite V, assoc_mvars, B. destruct (assoc k (sc_vars sc)); cbn; [reflexivity|exact IH].
+  rewrite (V k), B. destruct (assoc k (sc_vars sc)); cbn; [reflexivity|exact IH].
 Qed.
 
 Lemma assign_match k v : forall scs fs, Forall2 frame_match scs fs ->
@@ -54,10 +72,10 @@ Lemma assign_match k v : forall scs fs, Forall2 frame_match scs fs ->
   (assign_scopes k v scs = None /\ assign_frames k (cv v) fs = None).
 Proof.
   induction 1 as [|sc f scs fs (V & N & B) H IH]; [right; split; reflexivity|].
-  cbn [assign_scopes assign_frames]. rewrite V, assoc_mvars.
+  cbn [assign_scopes assign_frames]. rewrite (V k).
   destruct (assoc k (sc_vars sc)) as [w|]; cbn [option_map].
   - left. eexists _, _. split; [reflexivity|]. split; [reflexivity|]. split.
-    + constructor; [|exact H]. repeat split; cbn; [|exact N|exact B]. rewrite <- V at 1. rewrite V. apply assoc_set_mvars.
+    + constructor; [|exact H]. split; [cbn; apply vars_match_set; exact V|split; [exact N|exact B]].
     + constructor; [|apply kept_all_refl]. unfold kept. destruct f; reflexivity.
   - destruct IH as [(scs' & fs' & A1 & A2 & M & K)|[A1 A2]].
     + left. rewrite A1, A2. eexists _, _. split; [reflexivity|]. split; [reflexivity|]. split.
@@ -217,7 +235,7 @@ Proof.
         eexists _, _, _, rest. split; [exact S3|]. split.
         { split; [exact G2|]. split; [reflexivity|]. split.
           { split; [|rewrite nss_upd_cur; exact NS]. cbn. constructor; [|exact F'].
-            destruct FM as (V & N0 & B0). repeat split; cbn; [|exact N0|exact B0]. rewrite V. apply assoc_set_mvars. }
+            destruct FM as (V & N0 & B0). split; [cbn; apply vars_match_set; exact V|split; [exact N0|exact B0]]. }
           split; [exact LB|]. exists top. split; [exact EV|exact RR]. }
         split; [unfold moved; destruct f; reflexivity|].
         split; [cbn; unfold k; rewrite app_length; cbn; lia|apply kept_all_refl].
@@ -264,7 +282,7 @@ Proof.
     eexists _, _, _, rest. split; [exact S3|]. split.
     { split; [exact G2|]. split; [reflexivity|]. split.
       { split; [|rewrite nss_upd_cur; exact NS]. cbn. constructor; [|exact F'].
-        destruct FM as (V & N0 & B0). repeat split; cbn; [|exact N0|exact B0]. rewrite V. apply assoc_set_mvars. }
+        destruct FM as (V & N0 & B0). split; [cbn; apply vars_match_set; exact V|split; [exact N0|exact B0]]. }
       split; [exact LB|]. exists top. split; [exact EV|exact RR]. }
     split; [unfold moved; destruct f; reflexivity|].
     split; [cbn; unfold k; rewrite app_length; cbn; lia|apply kept_all_refl].
